@@ -952,3 +952,62 @@ pub fn print_case<P: Prop>(args: &(u64, String, u64)) -> i32 {
     println!("{}", serde_json::to_string_pretty(&gen_case_json::<P>(args.0, &args.1, args.2)).unwrap());
     0
 }
+
+// ---------------------------------------------------------------------------
+// coverage-guided fuzzing: the fuzzer's bytes are the generator's random choices
+
+/// Build the case that the strategy produces when `data` is its stream of random bytes.
+pub fn case_from_bytes<P: Prop>(profile: &str, data: &[u8]) -> Option<P::Case> {
+    let strat = P::strategy(profile);
+    let cfg = Config { failure_persistence: None, ..Config::default() };
+    let mut runner = TestRunner::new_with_rng(cfg, TestRng::from_seed(RngAlgorithm::PassThrough, data));
+    strat.new_tree(&mut runner).ok().map(|t| t.current())
+}
+
+thread_local! {
+    static FUZZ_KNOWN: RefCell<Option<Vec<KnownFinding>>> = const { RefCell::new(None) };
+}
+
+/// One fuzz iteration: returns Err(replay file path) on a violation that is not a listed finding.
+pub fn fuzz_one<P: Prop>(profile: &str, data: &[u8]) -> Result<(), String> {
+    use std::sync::Once;
+    static HOOK: Once = Once::new();
+    HOOK.call_once(|| {
+        install_panic_hook();
+        crate::alloc_count::track_this_thread();
+    });
+    if data.len() < 8 {
+        return Ok(());
+    }
+    let Some(case) = case_from_bytes::<P>(profile, data) else { return Ok(()) };
+    let known_listed = FUZZ_KNOWN.with(|k| {
+        let mut k = k.borrow_mut();
+        if k.is_none() {
+            *k = Some(load_known(P::ID));
+        }
+        k.as_ref().unwrap().clone()
+    });
+    let mut obs = Obs::default();
+    match run_case::<P>(&case, &mut obs) {
+        CaseOutcome::Pass => Ok(()),
+        CaseOutcome::Harness(_) => Ok(()),
+        CaseOutcome::Fail(f) => {
+            if known_listed.iter().any(|k| k.signature == f.signature) {
+                return Ok(());
+            }
+            let rec = FailureRec {
+                signature: f.signature.clone(),
+                detail: f.detail.clone(),
+                profile: format!("fuzz:{profile}"),
+                index: fingerprint(&case) % 1_000_000_007,
+                case: serde_json::to_value(&case).unwrap_or(Value::Null),
+                original_case: Value::Null,
+                shrink_steps: 0,
+            };
+            let p = write_replay(P::ID, 0, &rec);
+            eprintln!("{}: {}", f.signature, f.detail);
+            eprintln!("VIOLATION property={} replay={}", P::ID, p.display());
+            Err(p.display().to_string())
+        }
+    }
+}
